@@ -53,6 +53,16 @@ Up(k, ver, del) ==
     /\ ucur' = [ucur EXCEPT ![k] = [ver |-> ver, present |-> ~del]]
     /\ uhist' = uhist \cup {[k |-> k, ver |-> ver, del |-> del]}
     /\ UNCHANGED <<hasIS, isnap, joined, cview>>
+\* one upstream OnUpdates call carrying several writes
+RECURSIVE UpsOK(_, _)
+UpsOK(cur, us) == IF us = <<>> THEN TRUE
+                  ELSE Head(us).ver > cur[Head(us).k].ver
+                       /\ UpsOK([cur EXCEPT ![Head(us).k] = [ver |-> Head(us).ver, present |-> ~Head(us).del]], Tail(us))
+UpSeq(us) ==
+    /\ UpsOK(ucur, us)
+    /\ ucur' = ApplySeq(ucur, us)
+    /\ uhist' = uhist \cup { [k |-> us[i].k, ver |-> us[i].ver, del |-> us[i].del] : i \in DOMAIN us }
+    /\ UNCHANGED <<hasIS, isnap, joined, cview>>
 UStatus(s) ==
     /\ hasIS' = (hasIS \/ s = "insync")
     /\ isnap' = IF s = "insync" /\ ~hasIS THEN ucur ELSE isnap
